@@ -1,6 +1,11 @@
 # Human-written level texts per claimed property (used by tools/gen_manifest.py).
 HOOK_COMMITS = []
 META = {
+    "C18": {
+        "text": "Bounded model checking of shutdown on the real code: the moment of Close is a path decision over every visible operation of a write, a replication or a load; the interpreter owns all goroutines started by the store, so 'no background activity left' and 'later operations return' are decided from the thread table at quiescence, not from time-outs. Drop/instance Close run on a real orbitDB instance over a disk model.",
+        "design_ref": "DESIGN.md §2 C18",
+        "note": "Trusted: gosym thread model, stub bus/pubsub contracts (stated). Bounds: one Close moment per path, <= 2 repeats, one later operation; 2 databases for Drop.",
+    },
     "C14": {
         "text": "Bounded model checking of the real address pipeline with the database name a symbolic byte string: 2-safety (two peers, same inputs, equal addresses), injectivity, self-description (Parse(String()) and manifest at the root), reopen on another peer (type and write list), overwrite / local-only refusal, and names embedding another database's root.",
         "design_ref": "DESIGN.md §2 C14",
